@@ -351,25 +351,27 @@ def run_D(spec, ctx):
             ctx.state(bytes([ord("D"), k, a, b]))
             ctx.count(f"D:{'feasible' if c1 <= 0 else 'infeasible'}-vs-{'feasible' if c2 <= 0 else 'infeasible'}:"
                       f"{R.dominates_ref(G.pts[p1], Q(c1), G.pts[p2], Q(c2))}")
-            if ctx.guard(lambda: box.update(r=d_case(ctx, case)), case=case, sig_prefix=PD):
+            ok = ctx.guard(lambda: box.update(r=d_case(ctx, case, box)), case=case, sig_prefix=PD)
+            if "raw" in box:
+                tab[(a, b)] = box["raw"]          # the order laws below are checked on whatever the predicate answered
+            if ok:
                 ctx.traces += 1
-                tab[(a, b)] = box["r"]
                 ctx.outcome(("D", box["r"], c1 <= 0, c2 <= 0))
                 if p1 != p2 or c1 != c2:
                     ctx.nontriv(bytes([ord("D"), k, a, b]))
                 ctx.count(f"D:observed-{'feasible' if c1 <= 0 else 'infeasible'}-vs-{'feasible' if c2 <= 0 else 'infeasible'}:{box['r']}")
     # strict partial order on the complete pair table
     ns = len(st)
-    if len(tab) == ns * ns:
+    if True:
         for a in range(ns):
             for b in range(ns):
-                if not tab[(a, b)]:
+                if not tab.get((a, b)):
                     continue
-                if tab[(b, a)]:
+                if tab.get((b, a)):
                     ctx.violation(PD + "not-asymmetric", f"dominates(x,y) and dominates(y,x) both true for x={_st(G, st[a])} y={_st(G, st[b])}",
                                   dict(layer="D3", k=k, states=[_st(G, st[a]), _st(G, st[b])], seed=ctx.seed))
                 for c in range(ns):
-                    if tab[(b, c)] and not tab[(a, c)]:
+                    if tab.get((b, c)) and tab.get((a, c)) is False:
                         ctx.violation(PD + "not-transitive",
                                       f"x dominates y, y dominates z, x does not dominate z: x={_st(G, st[a])} y={_st(G, st[b])} z={_st(G, st[c])}",
                                       dict(layer="D3", k=k, states=[_st(G, st[a]), _st(G, st[b]), _st(G, st[c])], seed=ctx.seed))
@@ -389,11 +391,13 @@ def d_call(o1, cv1, o2, cv2, npfloat):
     return dominates(a1, float(cv1), a2, float(cv2))
 
 
-def d_case(ctx, case):
+def d_case(ctx, case, box=None):
     o1, cv1, o2, cv2 = case["o1"], case["cv1"], case["o2"], case["cv2"]
     r = d_call(o1, cv1, o2, cv2, case["npfloat"])
     ctx.transitions += 1
     require(isinstance(r, (bool, numpy.bool_)), PD + "return-type", f"dominates returned {type(r).__name__}")
+    if box is not None:
+        box["raw"] = bool(r)
     exp = R.dominates_ref([Q(x) for x in o1], Q(cv1), [Q(x) for x in o2], Q(cv2))
     feas = cv1 <= 0 and cv2 <= 0
     require(bool(r) == exp, PD + ("feasible-pair" if feas else "infeasible-pair"),
